@@ -359,7 +359,7 @@ package csproto
 //@   ensures  implies(err == nil, len(d.p)-old(d.offset) >= 8 && d.offset == old(d.offset)+8 && f64bits(v) == le64(d.p, old(d.offset)))
 //@   modifies d.offset
 
-//@ func (d *Decoder) DecodeBytes() (b []byte, err error)
+//@ func (d *Decoder) decodeBytes() (b []byte, err error)
 //@   requires decOK(d)
 //@   ensures  decOK(d)
 //@   ensures  implies(lenDelimStrict(d.p, old(d.offset)), err == nil)
@@ -367,6 +367,20 @@ package csproto
 //@   ensures  implies(err == nil, gocv_view(b, d.p, lenDelimStart(d.p, old(d.offset)), lenDelimEnd(d.p, old(d.offset))))
 //@   ensures  implies(lenDelimTooLong(d.p, old(d.offset)) || varintTruncated(d.p, old(d.offset)), err != nil)
 //@   modifies d.offset
+
+// DecodeBytes: a view of the input in fast mode, a fresh copy otherwise (C10).
+//@ func (d *Decoder) DecodeBytes() (b []byte, err error)
+//@   requires decOK(d)
+//@   ensures  decOK(d)
+//@   ensures  implies(lenDelimStrict(d.p, old(d.offset)), err == nil)
+//@   ensures  implies(err == nil, lenDelimOK(d.p, old(d.offset)) && d.offset == lenDelimEnd(d.p, old(d.offset)))
+//@   ensures  implies(err == nil, len(b) == lenDelimEnd(d.p, old(d.offset))-lenDelimStart(d.p, old(d.offset)))
+//@   ensures  forall(i, 0, len(b), implies(err == nil, b[i] == byteAt(d.p, lenDelimStart(d.p, old(d.offset))+i)))
+//@   ensures  implies(err == nil && d.mode == DecoderModeFast, gocv_view(b, d.p, lenDelimStart(d.p, old(d.offset)), lenDelimEnd(d.p, old(d.offset))))
+//@   ensures  implies(err == nil && d.mode != DecoderModeFast && len(b) > 0, gocv_fresh(b))
+//@   ensures  implies(lenDelimTooLong(d.p, old(d.offset)) || varintTruncated(d.p, old(d.offset)), err != nil)
+//@   modifies d.offset
+//@   alloc-bounded by len(d.p)-d.offset
 
 //@ func (d *Decoder) DecodeString() (s string, err error)
 //@   requires decOK(d)
